@@ -44,6 +44,8 @@ type countingSource struct {
 	outOrder atomic.Int64 // set to 1 when a call arrives after the end marker was returned
 	inCall   atomic.Int32
 	reentry  atomic.Int64
+	faulted  atomic.Bool  // set by a faultyWriter at the moment it first reports its fault ...
+	afterFlt atomic.Int64 // ... calls that arrive while it is set (C12: no digit is requested after the fault)
 	onCall   func(pos int) // controlled-scheduler builds: a scheduling point inside the digit source
 }
 
@@ -53,6 +55,9 @@ func (c *countingSource) next() int {
 	}
 	defer c.inCall.Add(-1)
 	c.calls.Add(1)
+	if c.faulted.Load() {
+		c.afterFlt.Add(1)
+	}
 	if c.onCall != nil {
 		c.onCall(c.pos)
 	}
@@ -98,6 +103,7 @@ type scriptEnv struct {
 	seqs    []func(take int) string
 	finds   []func() int // live Find / FindR closures (mkf / mkfr / nxf)
 	src     *countingSource
+	shared  bool // other goroutines use the same source at the same time (conc / sconc lines)
 }
 
 func digitsOf(s string) []int {
